@@ -297,6 +297,14 @@ def p_connected_components(I, st, fr, e, c, a):
     s_ = _seq(I, st, a[0])
     t_ = _seq(I, st, a[1])
     n = _nat(a[2])
+    # CC-REFL: pairs removed by a filter whose negation forces v == w are reflexive; dropping them leaves the
+    # connected components unchanged
+    if s_[0] == "sel" and t_[0] == "sel" and s_[2] == t_[2] and s_[2][1] == ("zip", s_[1], t_[1]):
+        removed = I.assume(st.copy(), f_not(s_[2][2]))
+        if all(s2.eq(Poly.atom(("elem", s_[1])), Poly.atom(("elem", t_[1]))) for s2 in removed):
+            import rules_terms
+            rules_terms.USES["CC-REFL"] = rules_terms.USES.get("CC-REFL", 0) + 1
+            s_, t_ = s_[1], t_[1]
     I.pre_eq(st, fr, e, "connected_components", t_len(s_), t_len(t_))
     I.pre_bound(st, fr, e, "connected_components", s_, n)
     I.pre_bound(st, fr, e, "connected_components", t_, n)
